@@ -54,6 +54,20 @@ CLAIMED["C05"] = dict(
     note="Trusted: TLC, BigNat Java overrides (cross-checked with their TLA+ definitions), EC.tla (toy-curve exhaustive validation + standard KATs), replayer plumbing. Points x scalars are sampled inside structured classes; the exhaustive decoder accept set is on toy curves only.",
     technique="TLA+ executable specification + TLC exploration + spec-to-code trace replay per field-arithmetic backend")
 
+CLAIMED["C11"] = dict(
+    category="model_checking",
+    text="TLC explores every bounded history of XORKeyStream/XORKeyStreamAt on one seekable ZUC object (ZUC-128, ZUC-256, 128-EEA3 constructors; plain and bucket sizes 0/1/127/128/129/256/384; lengths and offsets at the 4-byte, 128-byte and bucket seams, forwards and backwards) and every bounded Write/Sum/Finish(nbits)/Reset history of 128-EIA3 and the ZUC-256 MAC with 32/64/128-bit tags, covering every bit length 0..300 (thorough 0..700), write partitions and reuse. Replies come from a bit-exact TLA+ ZUC and definitional window-XOR MACs (3GPP and ZUC-256 published vectors asserted). Every transition is replayed on five dispatch tiers, recorded random histories are validated by TLC against the same object actions, and an implementation-shaped transcription of eea.go's bookkeeping is model-checked to refine the abstract stream.",
+    design_ref="DESIGN.md section 4, C11",
+    note="Trusted: TLC, TLA+ ZUC/EIA3/ZUC-256 MAC (KAT-pinned), replayer/recorder plumbing (binding guards both directions). After XORKeyStreamAt the sequential position is off+n (code behaviour; docs silent). Positions <= a few KiB; MAC messages <= 700 bits. Known finding D8 classified by a dedicated model of the defect (alt_d8).",
+    technique="TLA+ executable specification + TLC history exploration + two-way trace conformance + refinement check of an implementation-shaped model")
+
+CLAIMED["C09"] = dict(
+    category="model_checking",
+    text="Registers over G1, G2, GT carry their discrete logarithm in Z_N; TLC explores programs of base/scalar multiplication, addition, negation, doubling and pairing over scalar classes (0, 1, 2, n-1, n, n+1, 2^256-1, window one-hots, random) and predicts from the group laws and bilinearity which results must be equal, that every result equals generator^dlog, identity/inverse cases and - for G1 and G2 - the exact affine coordinates computed by big-integer arithmetic over F_p and F_p^2 (Bn.tla, GM/T 0044.5 parameters and Ppub-s asserted). GT is anchored by the standard's g = e(P1,[ks]P2). Decoders: accept/reject and re-encoding predicted for canonical, coordinate+p, off-curve, infinity and malformed inputs. Everything is replayed through the internal bn256 API (verifhook) under ADX+BMI2, no-ADX, no-BMI2 and purego.",
+    design_ref="DESIGN.md section 4, C09",
+    note="Trusted: TLC, BigNat overrides, Bn.tla, replayer plumbing. GT element values are relational + one standard constant (no F_p^12 tower in TLA+); G2 compressed decoding and subgroup checks are not modelled.",
+    technique="TLA+ executable specification (dlog algebra + exact G1/G2 arithmetic) + TLC exploration + spec-to-code trace replay")
+
 NOT_BUILT = "not built yet (in progress; see DESIGN.md section 9 build order)"
 NA = {}
 
